@@ -74,7 +74,7 @@ def wl_histories(ctx, rng, case):
     if not ctx.state.get("icontract"):
         raise Inconclusive("icontract unavailable")
     cfg = ck.gen_cfg(rng)
-    keys = ck.gen_keys(rng, cfg, rng.randint(3, 12))
+    keys = ck.with_zero_fp_keys(ctx, rng, cfg, ck.gen_keys(rng, cfg, rng.randint(3, 12)))
     if len(keys) < 2:
         return
     ops = ck.gen_history(rng, keys, rng.randint(4, 14), p_remove=rng.choice([0.1, 0.25, 0.4]), p_expand=0.07, p_reload=0.1)
@@ -95,7 +95,7 @@ def wl_remove_readd(ctx, rng, case):
     cfg.capacity = rng.choice([2, 3, 4, 5, 8])
     cfg.bucket_size = rng.choice([1, 2, 2, 3])
     cfg.max_swaps = rng.choice([1, 2, 4])
-    keys = ck.gen_keys(rng, cfg, rng.randint(5, 14))
+    keys = ck.with_zero_fp_keys(ctx, rng, cfg, ck.gen_keys(rng, cfg, rng.randint(5, 14)))
     if len(keys) < 4:
         return
     ops = []
@@ -203,7 +203,7 @@ def wl_long(ctx, rng, case):
     cfg.capacity = rng.choice([1, 2, 3])
     cfg.bucket_size = rng.choice([1, 2, 2, 3])
     cfg.max_swaps = rng.choice([2, 3, 5, 8])
-    keys = ck.gen_keys(rng, cfg, rng.randint(20, 50))
+    keys = ck.with_zero_fp_keys(ctx, rng, cfg, ck.gen_keys(rng, cfg, rng.randint(20, 50)))
     if len(keys) < 10:
         return
     ops = ck.gen_history(rng, keys, rng.randint(40, 100), p_remove=0.25, p_expand=0.03, p_reload=0.05)
@@ -276,5 +276,5 @@ PROP = Prop(
     setup=setup,
     finish=finish,
     shards={"quick": 6, "thorough": 16},
-    required=["icontract_invariant_evaluations_judged", "explicit_invariant_evaluations", "decisions_taken", "capacity_changes", "reloads", "failed_adds"],
+    required=["icontract_invariant_evaluations_judged", "explicit_invariant_evaluations", "decisions_taken", "capacity_changes", "reloads", "failed_adds", "universes_with_zero_fingerprint_keys"],
 )
